@@ -612,6 +612,19 @@ def slice_region(e, sym, root_pred):
     s = e.strip()
     if root_pred(s):
         return {}, {"len": 1}
+    if s.k == "field" and s.x.get("idx") in (0, 1) and s.a[0].strip().k == "call" and s.a[0].strip().x["path"].rsplit("::", 1)[-1] in ("split_at", "split_at_mut") and len(s.a[0].strip().a) == 2:
+        # `buf.split_at(n)`: .0 is buf[..n], .1 is buf[n..]
+        c = s.a[0].strip()
+        base = slice_region(c.a[0], sym, root_pred)
+        n = linform(c.a[1], sym)
+        if base is None or n is None:
+            return None
+        s0, e0 = base
+        mid = dict(s0)
+        for k, v in n.items():
+            mid[k] = mid.get(k, 0) + v
+        mid = {k: v for k, v in mid.items() if v != 0}
+        return (s0, mid) if s.x["idx"] == 0 else (mid, e0)
     if s.k == "call" and s.x["path"].endswith("::index") or (s.k == "call" and s.x["path"].endswith("::index_mut")):
         base = slice_region(s.a[0], sym, root_pred)
         if base is None:
